@@ -629,15 +629,36 @@ class _Tree(HTMLParser):
     def handle_data(self, data):
         self.cur.kids.append(data)
 
-def check_html_entry(e, page):
-    """e: document entry; page: text of the entry's HTML page."""
+def check_html_single_page(entries, page):
+    """The one page skool2html -1 writes: the same elements per entry, one entry after the other, in the order of the file."""
     problems = []
     stats = {'words': 0, 'instrs': 0, 'places': 0}
-    en = 'entry %d' % e['addr']
     t = _Tree()
     t.feed(page)
     t.close()
-    root = t.root
+    descs = t.root.find('div', 'description')
+    tabs = t.root.find('table', 'disassembly')
+    if len(descs) != len(entries) or len(tabs) != len(entries):
+        return [_p('structure', 'single page', 'expected %d title elements and disassembly tables, got %d and %d' % (len(entries), len(descs), len(tabs)))], stats
+    for e, d, tb in zip(entries, descs, tabs):
+        root = Node('root', [], None)
+        root.kids = [d, tb]
+        ps, st = check_html_entry(e, None, root)
+        problems += ps
+        for k in stats:
+            stats[k] += st[k]
+    return problems, stats
+
+def check_html_entry(e, page, root=None):
+    """e: document entry; page: text of the entry's HTML page (or root: the elements of the entry)."""
+    problems = []
+    stats = {'words': 0, 'instrs': 0, 'places': 0}
+    en = 'entry %d' % e['addr']
+    if root is None:
+        t = _Tree()
+        t.feed(page)
+        t.close()
+        root = t.root
 
     def cmp(place, exp, got):
         stats['places'] += 1
